@@ -54,7 +54,7 @@ def anchors():
 
 
 POINTS = {}
-REQUIRED_CLAUSES = [history.CLAUSE, "reflection.geometric", "reflection.apparent",
+REQUIRED_CLAUSES = [history.CLAUSE, "option.tofk5-small", "reflection.geometric", "reflection.apparent",
                     "frame.mean-equinox", "frame.j2000", "frame.b1950",
                     "frame.equinox", "frame.norm==R", "obliquity~IAU",
                     "nutation.longitude~18.6yr", "nutation.obliquity~18.6yr",
@@ -154,6 +154,27 @@ def case_reflection(mon, jde):
                   and abs(la() + B()) <= 1e-9 and r == R,
                   dict(case, nutation=nut, sun=[lo(), la(), r],
                        earth=[L(), B(), R]))
+    # the FK5 option changes a position by the documented correction only
+    # (0.09 arcsec in longitude, < 0.06 in latitude, nothing in distance), in
+    # the of-date frame and in the J2000 frame alike, and given positionally
+    # or by keyword
+    for name in ("geometric_heliocentric_position",
+                 "geometric_heliocentric_position_j2000"):
+        f = getattr(Earth, name)
+        try:
+            L1, B1, R1 = f(e)
+            L0, B0, R0 = f(e, tofk5=False)
+            L0p, B0p, R0p = f(e, False)
+        except Exception as ex:
+            mon.dev("option.tofk5-small", dict(case, fn=name,
+                                               raised=repr(ex)))
+            continue
+        dl = wrap(L1() - L0()) * 3600.0
+        db = (B1() - B0()) * 3600.0
+        mon.check("option.tofk5-small", abs(dl) <= 0.2 and abs(db) <= 0.1
+                  and R1 == R0 and (L0p(), B0p(), R0p) == (L0(), B0(), R0),
+                  dict(case, fn=name, dlon_arcsec=dl, dlat_arcsec=db,
+                       with_fk5=[L1(), B1(), R1], without=[L0(), B0(), R0]))
     mon.check("epoch-unchanged", e.jde() == Epoch(jde).jde(), case)
 
 
